@@ -11,9 +11,13 @@ def run(ctx):
     h = ctx.build_harness("h_grid", libs=("PolarGrid",))
     if ctx.tier == "quick":
         ctx.pipe([h, "300", "20", "28"], "grid")
+        # few rows, many angles (even counts up to 1300): index arithmetic that is only wrong for particular moduli — a reciprocal
+        # multiplication instead of the division, a mask instead of the modulo — needs many different ntheta, not many nodes
+        ctx.pipe([h, "90", "5", "1300"], "grid", label="grid-many-ntheta")
     else:
         ctx.pipe([h, "1500", "24", "40"], "grid", label="grid-small")
         ctx.pipe([h, "60", "33", "1024"], "grid", label="grid-large-nt")
+        ctx.pipe([h, "1200", "5", "2600"], "grid", label="grid-many-ntheta")
     if any(b[0].startswith("harness grid") for b in ctx.broken):
         # the harness died inside the library (an assert of /repo fired, or a crash): search for the concrete query with the
         # assertions compiled out, so that the wrong value reaches the comparison instead of aborting the process
